@@ -119,6 +119,16 @@ def run(ctx):
         if i % 3 == 0:
             s = unicode_idents(rnd, s)
         stmts.append(s)
+        if i % 4 == 1 and " " in s:
+            # the same statement with a comment of each style in some gap, in front and at the end (comments are dialect neutral text)
+            toks, gaps, _ = lexer.split_gaps(s)
+            ks = [k for k, g in enumerate(gaps) if g]
+            c = rnd.choice(["-- note\n", "# note\n", "/* note */", "--note\n", "#note\n"])
+            if ks:
+                k = rnd.choice(ks)
+                gaps[k] = " " + c + " "
+                stmts.append(lexer.join(toks, gaps))
+            stmts.append(rnd.choice(["# header\n", "-- header\n", "/* header */ "]) + s + rnd.choice([" # end", " -- end", " /* end */"]))
     stmts += [c["sql"] for c in impl.corpus() if len(c["sql"]) < 400]
     disagreements, nneutral, prem_bad = [], 0, []
     for si, sql in enumerate(stmts):
